@@ -253,7 +253,11 @@ def check(case):
                 want3 = expected(d3, a3, name)
                 if isinstance(want3, tuple):
                     continue
-                got3 = list(db3.get_dataset(name))
+                try:
+                    got3 = list(db3.get_dataset(name))
+                except Exception as e:
+                    raise Violation('request-raised', f'{desc}\nrequest {name!r} on a freshly built JsonDatabase: '
+                                                      f'{type(e).__name__}: {str(e)[:300]}')
                 if got3 != want3:
                     raise Violation('stale-file-content', f'{desc}\nafter the JSON files were rewritten a new '
                                                           f'JsonDatabase answers {name!r} with {got3}\nexpected {want3}')
